@@ -3,10 +3,12 @@
 # undoes it, and writes one line per seed: <dir> <applies?> <check exit> <clauses>.  /repo must be clean; nothing else may
 # use /repo while this runs.
 out=${1:-/verif/seeded/SWEEP.txt}
+filter=${2:-.}   # optional regex on the seed directory name
 : > "$out"
 for d in /verif/seeded/*/; do
   n=$(basename "$d"); p=${n%%-*}
   [ -f "$d/patch.diff" ] || continue
+  echo "$n" | grep -Eq "$filter" || continue
   props="$p"
   extra=$(python3 -c "import json;print(' '.join(json.load(open('$d/meta.json')).get('also_check',[])))" 2>/dev/null)
   for q in $props $extra; do
